@@ -87,7 +87,14 @@ def coqc(path, timeout=600, extra=None):
     path = Path(path)
     timeout = load_scaled(timeout)
     t0 = time.time()
-    cmd = ["timeout", str(int(timeout)), "coqc"] + COQFLAGS + (extra or []) + [str(path)]
+    # the .vo digest depends on the path string handed to coqc: always the path relative to coq/ (as coq_makefile's
+    # make does), so that a file rebuilt by a check has the same digest as the one setup built and files compiled
+    # against either stay consistent ("makes inconsistent assumptions over library ..." otherwise)
+    try:
+        arg = str(path.resolve().relative_to(COQ.resolve())) if path.is_absolute() else str(path)
+    except ValueError:
+        arg = str(path)
+    cmd = ["timeout", str(int(timeout)), "coqc"] + COQFLAGS + (extra or []) + [arg]
     p = subprocess.run(cmd, capture_output=True, text=True, cwd=str(COQ))
     secs = time.time() - t0
     out = p.stdout + p.stderr
